@@ -173,19 +173,36 @@ def _readings(n, tag="x"):
 
 def _worker(masks):
     py = load()
+    from pvx.sym import explore
+    from pvx import paths as _paths, field as _field
     bad = []
     n_ob = 0
     for mask in masks:
         try:
-            res = check_mask(py, mask)
+            # the constructor / apply may branch on the VALUES (a tolerance instead of `!= 0`): every path that some
+            # concrete parameter values take is judged
+            runs = explore(lambda: check_mask(py, mask), max_paths=6, on_budget="stop")
         except Exception as exc:
-            bad.append((mask, "exception", repr(exc)))
+            bad.append((mask, "engine", repr(exc), None))
             n_ob += 1
             continue
-        n_ob += len(res)
-        for clause, ok, detail in res:
-            if not ok:
-                bad.append((mask, clause, detail))
+        judged = 0
+        for pa, res in runs:
+            wit = None
+            if pa.conds:
+                syms = sorted({s_ for c_, _ in pa.conds for s_ in getattr(c_, "free_symbols", ())}, key=lambda s_: s_.name)
+                dom = {s_: (1e-9, 0.2) for s_ in syms}
+                wit = _paths.witnesses(list(pa.conds), syms, dom, {}, 0, (1e-9, 0.2), want=1)
+                if not wit:
+                    continue
+            judged += 1
+            n_ob += len(res)
+            for clause, ok, detail in res:
+                if not ok:
+                    extra = "" if not pa.conds else " | on the path %s, taken e.g. by %s" % (_paths.show_conds(list(pa.conds), 2), {k_: float("%.3g" % v_) for k_, v_ in wit[0].items()})
+                    bad.append((mask, clause, detail + extra, wit[0] if wit else None))
+        if not judged:
+            bad.append((mask, "engine", "no path of the mask had a witness", None))
     return n_ob, bad
 
 
@@ -224,19 +241,19 @@ def run(ctx):
         n_ob, bad = _worker(masks)
     ctx.paths += len(masks)
     by_clause = {}
-    for mask, clause, detail in bad:
-        by_clause.setdefault(clause, []).append((mask, detail))
+    for mask, clause, detail, wit in bad:
+        by_clause.setdefault(clause, []).append((mask, detail, wit))
     clauses = ["layout.states", "layout.P", "layout.H", "layout.G", "layout.J", "layout.F", "layout.q_v", "layout.scale_misal_flag",
-               "names_match_simulator", "output_matrix", "output_matrix.stacked", "accumulate", "exception"]
+               "names_match_simulator", "output_matrix", "output_matrix.stacked", "accumulate"]
+    for mask, detail, wit in by_clause.get("engine", [])[:3]:
+        ctx.add(Ob("C14.engine.mask", "guard", "error", "python", 0.0, "mask %s: %s" % (mask, detail)))
     for cl in clauses:
         fails = by_clause.get(cl, [])
-        if cl == "exception" and not fails:
-            continue
         ctx.ob("C14.%s" % cl, "a", not fails, "mask-enumeration(symbolic values)", (time.time() - t0) / len(clauses),
                "%d masks (%s tier%s), every one with symbolic parameter values" % (len(masks), ctx.tier, ", COMPLETE product" if ctx.tier == "thorough" else ", loop-modular subset")
                if not fails else "fails for mask %s: %s (%d masks)" % (fails[0][0], fails[0][1], len(fails)),
                cex=None if not fails else dict(mask=dict(bias=fails[0][0][0], noise=fails[0][0][1], scale_misal=fails[0][0][2]), detail=fails[0][1], n_masks=len(fails)),
-               native=None if not fails else _native_mask(py, fails[0][0]))
+               native=None if not fails else _native_mask(py, fails[0][0], fails[0][2]))
     ctx.notes.append(dict(masks=len(masks), per_mask_obligations=n_ob))
     ctx.guard(_walk_without_bias, ctx, py)
     ctx.guard(_undo, ctx, py)
@@ -248,18 +265,20 @@ def run(ctx):
     ctx.guard(_C19.frame_obligations, ctx, py, "C14", {'inertial_sensor'})
 
 
-def _native_mask(py, mask):
-    """replay a failing mask with concrete numbers against the documented layout"""
+def _native_mask(py, mask, values=None):
+    """replay a failing mask with concrete numbers against the documented layout (`values`: the witness of a path, i.e.
+    the simulated scale / misalignment magnitudes t<i><j> that take it)"""
     IS = py.inertial_sensor
     b, nz, sm = mask
+    values = values or {}
     bias_sd = [0.1 * (a + 1) if b[a] else 0 for a in range(3)]
     walk = [0.01 * (a + 1) if b[a] == 2 else 0 for a in range(3)]
     noise = [0.2 * (a + 1) if nz[a] else 0 for a in range(3)]
     scale = [[0.001 * (3 * i + j + 1) if sm[3 * i + j] else 0 for j in range(3)] for i in range(3)]
     m = IS.EstimationModel(bias_sd, noise, walk, scale)
     e = expected_layout(mask)
-    T = np.eye(3) + np.array(scale)
-    par = IS.Parameters(T, np.array([0.5 if b[a] else 0.0 for a in range(3)]), noise, walk, rng=0)
+    T = np.eye(3) + np.array([[values.get("t%d%d" % (i, j), scale[i][j]) if sm[3 * i + j] else 0.0 for j in range(3)] for i in range(3)])
+    par = IS.Parameters(T, np.array([values.get("b%d" % a, 0.5) if b[a] else 0.0 for a in range(3)]), noise, walk, rng=0)
     rd = pd.DataFrame(np.ones((3, 3)), index=[0.0, 0.1, 0.3], columns=["gyro_x", "gyro_y", "gyro_z"])
     par.apply(rd, "rate")
     r = np.array([0.3, -0.2, 0.7])
